@@ -231,6 +231,20 @@ pub fn c09(thorough: bool) -> Vec<Part> {
     c.resp_sizes = vec![5, 12000];
     c.small_sndbuf = true;
     cfgs.push(c);
+    {
+        // two clients that stop reading, one request each: both writes fail in the same batch
+        let mk = |c: usize| {
+            let mut a = ClientCfg::adversary(vec![tagged_get(c, 0)]);
+            a.can_close = false;
+            a.can_shut_wr = false;
+            a
+        };
+        let mut d = SrvCfg::base("C09", "two clients that shut down their read side, one request each; witness", vec![mk(0), mk(1), witness(2)]);
+        d.closure_witness = true;
+        d.release_check = true;
+        d.orders = Orders::AscRev;
+        cfgs.push(d);
+    }
     if thorough {
         let mut pair1 = tagged_get(1, 0);
         pair1.extend_from_slice(&tagged_get(1, 1));
@@ -352,6 +366,15 @@ pub fn c18(thorough: bool) -> Vec<Part> {
     b.twin_without_kill = true;
     b.orders = Orders::Full;
     cfgs.push(b);
+    {
+        let mut late = SrvCfg::base("C18", "kill switch installed after start_server(): one client + kill at every point", vec![ClientCfg::well_behaved(vec![tagged_get(0, 0), tagged_get(0, 1)])]);
+        late.kill_switch = true;
+        late.kill_action = true;
+        late.kill_switch_late = true;
+        late.twin_without_kill = true;
+        late.orders = Orders::Full;
+        cfgs.push(late);
+    }
     // all_ready seed
     let mut clients = vec![];
     for c in 0..10 {
